@@ -7,13 +7,13 @@ UF = ["--arrays-uf-always"]
 OBL = []
 
 MODPATH = {
-    "ast.rs": "ast", "ast__sim.rs": "ast::sim", "asm.rs": "asm", "asm__encoding.rs": "asm::encoding", "err.rs": "err",
+    "ast.rs": "ast", "ast__sim.rs": "ast::sim", "asm.rs": "asm", "asm__objblock.rs": "asm", "asm__encoding.rs": "asm::encoding", "err.rs": "err",
     "parse.rs": "parse", "parse__lex.rs": "parse::lex", "sim.rs": "sim", "sim__mem.rs": "sim::mem", "sim__mem__copy.rs": "sim::mem", "sim__frame.rs": "sim::frame", "sim__device.rs": "sim::device", "sim__device__poll.rs": "sim::device", "sim__device__h.rs": "sim::device", "sim__frame__h.rs": "sim::frame", "sim__mem__h.rs": "sim::mem",
     "sim__device__timer.rs": "sim::device::timer", "sim__device__keyboard.rs": "sim::device::keyboard", "sim__device__display.rs": "sim::device::display", "sim__debug.rs": "sim::debug", "sim__observer.rs": "sim::observer",
 }
 
 
-MODNAME = {"sim__mem__copy.rs": "verif_kani_copy", "sim__device__poll.rs": "verif_kani_poll", "sim__device__h.rs": "verif_kani_h", "sim__frame__h.rs": "verif_kani_h", "sim__mem__h.rs": "verif_kani_h"}
+MODNAME = {"asm__objblock.rs": "verif_kani_gen::objblock_h", "sim__mem__copy.rs": "verif_kani_copy", "sim__device__poll.rs": "verif_kani_poll", "sim__device__h.rs": "verif_kani_h", "sim__frame__h.rs": "verif_kani_h", "sim__mem__h.rs": "verif_kani_h"}
 
 
 def K(id, module, harness, props, functions, kind="complete", bound=None, tier="quick", args=None, timeout=900,
@@ -216,6 +216,15 @@ for n in (9, 11):
 for h in ("source_info_0_0", "source_info_3_0", "source_info_3_1", "source_info_6_2", "source_info_8_2"):
     K(f"K.asm.{h}", "asm.rs", h, ["C25"], ["SourceInfo::count_lines", "SourceInfo::raw_line_span", "SourceInfo::get_line", "SourceInfo::get_pos_pair"],
       kind="bounded", bound="text of %s bytes with %s newlines at symbolic positions" % tuple(h.split("_")[2:]), group="src", replay="native")
+OBJB = "ObjBlock and its impls are items nested inside ObjectFile::new: their text is copied verbatim from /repo on every run into a generated module; the statement loop of pass 2 (which directive is written where, block bookkeeping, overlap test) is not covered"
+UPPER = "str::to_uppercase -> fails when reached (checked unreachable: the directive carries no label operand)"
+for h, b, kind in (("write_fill", "", "complete"), ("write_nothing_orig", "", "complete"), ("write_nothing_end", "", "complete"), ("write_nothing_external", "one-letter label name", "bounded"),
+             ("write_blkw_1", ".blkw 1", "bounded"), ("write_blkw_4", ".blkw 4", "bounded"), ("write_stringz_0", "empty string", "bounded"),
+             ("write_stringz_3", "3 symbolic ASCII bytes", "bounded"), ("write_fill_undefined_label", "empty symbol table, one-letter label", "bounded"),
+             ("block_range", "block of 3 words", "bounded"), ("write_fill_defined_label", "one-label table, one-letter name, concrete spellings", "bounded")):
+    lab = "label" in h
+    K(f"K.objblock.{h}", "asm__objblock.rs", h, ["C01"] + (["C02", "C26"] if "undefined" in h else []), ["ObjBlock::write_directive", "ObjBlock::push", "ObjBlock::shift", "<ObjBlock as Extend<u16>>::extend", "ObjBlock::range", "Directive::word_len"] + (["SymbolTable::lookup_label"] if lab else []),
+      kind=kind, bound=b or None, stubs=[RS] + ([] if lab or h == "block_range" else [UPPER]), assumptions=[OBJB], group="objblock", timeout=1500, tier="quick")
 EXTR = "add_label is nested inside SymbolTable::new: its text is copied verbatim from /repo on every run into a generated module (only `pub(crate)` prepended); the call sites in the statement loop are not covered"
 K("K.asm.add_label_vacant", "asm.rs", "add_label_vacant", ["C02", "C23"], ["add_label (nested in SymbolTable::new)"], kind="bounded", bound="empty table; name 'Ab'; address, span start, external flag symbolic", stubs=[RS], assumptions=[EXTR], timeout=1800)
 for k in (1, 2, 3, 4):
